@@ -92,9 +92,9 @@ def main(argv=None):
             # the quick tier must end well inside 15 minutes whatever the tree looks like: the Kani runs
             # share what is left of the budget (a harness cut by it is undecided, never an alarm)
             budget = float(os.environ.get("VERIF_QUICK_BUDGET_S", "780")) if tier != "thorough" else None
-            todo_specs = [sp for sp in specs if [h for h in sp.harnesses if tier == "thorough" or getattr(h, "tier", "quick") != "thorough"]]
+            todo_specs = [sp for sp in specs if [h for h in sp.harnesses if _in_tier(h, tier)]]
             for sp in specs:
-                hs = [h for h in sp.harnesses if tier == "thorough" or getattr(h, "tier", "quick") != "thorough"]
+                hs = [h for h in sp.harnesses if _in_tier(h, tier)]
                 if not hs:
                     continue
                 kr = None
@@ -103,7 +103,8 @@ def main(argv=None):
                     remaining_specs = len(todo_specs) - todo_specs.index(sp)
                     deadline = time.time() + max(20.0, (t0 + budget - time.time()) / remaining_specs)
                 try:
-                    kr = krun.run(sp, hs, deadline=deadline)
+                    # thorough-tier harnesses are the memory-hungry ones (up to ~18 GB each, 62 GB RAM, no swap): fewer at a time
+                    kr = krun.run(sp, hs, deadline=deadline, jobs=8 if tier != "thorough" else 4)
                 except rsx.LostAnchor as e:
                     undecided.append(f"lost anchor (kani): {e}")
                 if kr is not None:
@@ -257,6 +258,17 @@ def _fn_breakdown(path, vf, r):
         return getattr(r, "breakdown", [])
     except Exception:
         return []
+
+
+def _in_tier(h, tier: str) -> bool:
+    """quick: harnesses marked quick; thorough: quick + thorough; experimental (not registered in MANIFEST: harnesses that
+    do not reliably finish in this sandbox): everything."""
+    ht = getattr(h, "tier", "quick")
+    if tier == "experimental":
+        return True
+    if tier == "thorough":
+        return ht in ("quick", "thorough")
+    return ht == "quick"
 
 
 def _check_canaries(vf, r, path, undecided):
